@@ -512,6 +512,16 @@ pub fn run_c05(tier: &str) -> i32 {
                         let t2 = format!("{}{}", head, String::from_utf8(m).unwrap());
                         check("C05", "footer-segment-char-delete", &case, &token, &Presentation::of(&case, &t2), None, &mut acc);
                     }
+                    // something appended to the footer segment (i.e. to the token): every symbol of the alphabet
+                    // (base64url, '.', '=', blank, LF, CR, TAB) and the usual line ends
+                    for &ch in &alpha {
+                        let t2 = format!("{}{}", token, ch as char);
+                        check("C05", "footer-segment-char-appended", &case, &token, &Presentation::of(&case, &t2), None, &mut acc);
+                    }
+                    for tail in ["\r\n", "\n\n", " \n", "\n ", "\u{0}", "\u{85}", "\u{2028}", "%0A"] {
+                        let t2 = format!("{}{}", token, tail);
+                        check("C05", "footer-segment-text-appended", &case, &token, &Presentation::of(&case, &t2), None, &mut acc);
+                    }
                     // the footer segment removed (with and without its dot), replaced by another footer's
                     let no_dot = head.trim_end_matches('.').to_string();
                     check("C05", "footer-segment-removed", &case, &token, &Presentation::of(&case, &no_dot), None, &mut acc);
